@@ -1,3 +1,5 @@
+import math
+
 from .nodes import types, expressions, declarations
 
 
@@ -109,6 +111,11 @@ class ConstantExpressionEvaluator:
         # do some real casting:
         if expr.typ.is_integer:
             self.check_number(value, expr)
+            if isinstance(value, float) and not math.isfinite(value):
+                self.context.error(
+                    f"Cannot convert {value} to an integer type",
+                    expr.location,
+                )
             value = self.convert(expr.typ, int(value))
         elif expr.typ.is_float or expr.typ.is_double:
             self.check_number(value, expr)
